@@ -83,6 +83,13 @@ pub fn stories(cfg: &Cfg) -> Vec<Compiled> {
             v.push(c);
         }
     }
+    for (k, src) in TINY.iter().enumerate() {
+        if let Ok(json) = bladeink_compiler::Compiler::new().compile(src)
+            && let Some(c) = crate::programs::from_json(&format!("tiny-{k}"), json, Some(src.to_string()))
+        {
+            v.push(c);
+        }
+    }
     let corpus = corpus_stories(&cfg.corpus_dir(), true, true, if cfg.quick() { 3000 } else { 100_000 });
     let mut idx: Vec<usize> = (0..corpus.len()).collect();
     Rng::derive(cfg.seed, "C18-corpus", 0).shuffle(&mut idx);
@@ -98,6 +105,11 @@ pub const TINY: &[&str] = &[
     "-> top\n=== top ===\nTop.\n-> t ->\n{top < 2: -> top}\n-> END\n=== t ===\nIn tunnel {top}.\n->->\n",
     "LIST L = (a), b, c\nVAR x = 0\n-> k\n=== k ===\n<- th\nMain {L} {f(2)}.\n~ L += b\n+ [loop] -> k\n* [stop] -> END\n=== th ===\nThread line.\n* [thread choice] -> END\n- -> DONE\n=== function f(p) ===\n~ x = x + p\n~ return x\n",
     "-> a\n=== a ===\n{a > 1: twice|once} {&x|y}\n= s\nStitch {a.s}.\n+ [back] -> a\n* [on] -> b\n=== b ===\nB {a}.\n-> END\n",
+    // objects that name the container they sit in: a variable divert back into its own knot, TURNS_SINCE / READ_COUNT
+    // of the enclosing knot, a divert target passed as an argument and kept in a variable
+    "VAR next = -> round\nVAR n = 0\n-> round\n=== round ===\n~ n = n + 1\nRound {n} {TURNS_SINCE(-> round)} {READ_COUNT(-> round)} {round}\n{ n < 3:\n    -> next\n}\n+ {n < 6} [again] -> next\n* [stop] -> END\n",
+    "VAR back = -> hub\n-> hub\n=== hub ===\nHub {hub}.\n-> visit(-> hub) ->\n+ {hub < 3} [again] -> back\n* [done] -> END\n=== visit(-> where) ===\nVisiting {TURNS_SINCE(where)} {READ_COUNT(-> visit)}.\n->->\n",
+    "-> k\n=== k ===\n-> k.s\n= s\n- (top) At top {top} {k.s} {TURNS_SINCE(-> k.s)}\n{ top < 3:\n    -> top\n}\n<- k.side\n+ {k.s < 3} [more] -> k.s\n* [end] -> END\n= side\nSide {side} {READ_COUNT(-> k)}.\n-> DONE\n",
 ];
 
 /// `inkmon leakrun --seed S --from I --count K --cycles N`: plays stories and drops them; for Miri / valgrind.
